@@ -60,6 +60,17 @@ def cases(tier):
         if ch.upper() in A:
             continue
         yield {"k": "bad", "c": c}
+    # beyond ASCII: every character that some case mapping relates to the alphabet (e.g. U+017F whose upper case is 'S', the Kelvin
+    # sign whose lower case is 'k'), and every code point of a contiguous range (quick: up to U+24FF; thorough: the whole BMP and the
+    # first supplementary planes up to U+1FFFF)
+    near = [c for c in range(128, 0x110000) if not 0xD800 <= c < 0xE000
+            and any(x in A.strip() for x in (chr(c).upper() + chr(c).lower() + chr(c).casefold()).upper())]
+    yield {"k": "bad-range", "cs": near}
+    top = 0x20000 if tier == "thorough" else 0x2500
+    for lo in range(128, top, 256):
+        if 0xD800 <= lo < 0xE000:
+            continue
+        yield {"k": "bad-range", "cs": list(range(lo, lo + 256))}
     for lit in ("^R", "^RABCD", "^Rabcde"):
         yield {"k": "badlit", "lit": lit}
 
@@ -107,6 +118,11 @@ def check(case, r, tier):
         lit = {"\\": "\\\\", "/": "\\/"}.get(ch, ch)
         for text in (".rad50 /%s/" % lit, ".rad50 /ab%s/" % lit, ".rad50 \"%sA\"" % ("\\\"" if ch == '"' else lit)):
             batch.expect_error(text + "\n", r, ("badchar", text), {"kind": "error", "text": text + "\n"})
+    elif k == "bad-range":
+        for c in case["cs"]:
+            ch = chr(c)
+            for text in (".rad50 /%s/" % ch, ".rad50 /ab%s/" % ch, ".word ^R%s" % ch, ".word ^RA%sB" % ch):
+                batch.expect_error(text + "\n", r, ("badchar", text), {"kind": "error", "text": text + "\n"})
     elif k == "badlit":
         text = ".word " + case["lit"] + "\n"
         batch.expect_error(text, r, ("badlit", text), {"kind": "error", "text": text})
